@@ -60,6 +60,7 @@ structure Resp where
   hdr : List (String × String)
   body : Blob
   gunzip : Option (Bool × Blob)
+  err : String := ""
 
 def respOf (j : Json) : Except String Resp := do
   let g := (j.getObjVal? "gunzip").toOption.getD Json.null
@@ -67,7 +68,8 @@ def respOf (j : Json) : Except String Resp := do
     let ok ← g.getObjValAs? Bool "ok"
     pure (some (ok, ← blobOf g))
   pure { status := ← j.getObjValAs? Nat "status", hdr := ← pairs (← j.getObjVal? "hdr"),
-         body := ← blobOf (← j.getObjVal? "body"), gunzip := gz }
+         body := ← blobOf (← j.getObjVal? "body"), gunzip := gz,
+         err := (j.getObjValAs? String "err").toOption.getD "" }
 
 /-- a written chunk: its bytes when shipped in hex, otherwise only its length. -/
 structure Chunk where
@@ -78,6 +80,7 @@ inductive SOp where
   | h (o : Op)
   | wh (c : Nat)
   | w (c : Chunk)
+  | fl
 
 def opOf (j : Json) : Except String SOp := do
   let op ← j.getObjValAs? String "op"
@@ -88,6 +91,7 @@ def opOf (j : Json) : Except String SOp := do
   | "add" => pure (.h (.add k v))
   | "del" => pure (.h (.del k))
   | "wh" => pure (.wh ((j.getObjValAs? Nat "code").toOption.getD 0))
+  | "fl" => pure .fl
   | "w" =>
     let hx := (j.getObjValAs? String "hex").toOption.getD ""
     let n := (j.getObjValAs? Nat "len").toOption.getD 0
@@ -110,6 +114,7 @@ structure Case where
   matchTab : List (String × String)
   up : Blob
   nw : Nat
+  canFlush : Bool
 
 def caseOf (inp impl : Json) : Except String Case := do
   let orc ← impl.getObjVal? "oracle"
@@ -118,7 +123,8 @@ def caseOf (inp impl : Json) : Except String Case := do
          req := ← pairs (← inp.getObjVal? "req"), ops := ← opsJ.toList.mapM opOf,
          got := ← respOf (← impl.getObjVal? "got"), base := ← respOf (← impl.getObjVal? "base"),
          sniff := ← orc.getObjValAs? String "sniff", matchTab := ← pairs (← orc.getObjVal? "match"),
-         up := ← blobOf (← orc.getObjVal? "up"), nw := ← orc.getObjValAs? Nat "nw" }
+         up := ← blobOf (← orc.getObjVal? "up"), nw := ← orc.getObjValAs? Nat "nw",
+         canFlush := (orc.getObjValAs? Bool "canflush").toOption.getD false }
 
 /-! the model instance -/
 
@@ -131,6 +137,7 @@ def cfgOf (c : Case) : Cfg Unit :=
 def modelOps (c : Case) : List Op := c.ops.map (fun
   | .h o => o
   | .wh k => .wh k
+  | .fl => .fl
   | .w ch => .w (ch.bytes.getD []))
 
 def hasOpaque (c : Case) : Bool := c.ops.any (fun | .w ch => ch.bytes.isNone | _ => false)
@@ -182,6 +189,22 @@ def rfcAccepts (req : List (String × String)) : Bool :=
     | e :: _ => positive (cut ';' e).2
     | [] => false
 
+/-- the upstream's own header map at its first deciding call (no sniffed type filled in), or at the end -/
+def rawAt (cf : Bool) : List Op → Hdr → Hdr
+  | [], h => h
+  | .wh c :: r, h => if informational c then rawAt cf r h else h
+  | .w _ :: _, h => h
+  | .fl :: r, h => if cf then h else rawAt cf r h
+  | o :: r, h => rawAt cf r (hop o h)
+
+/-- is the first deciding call a `Write`? -/
+def implicitFirst (cf : Bool) : List Op → Bool
+  | [] => false
+  | .wh c :: r => if informational c then implicitFirst cf r else false
+  | .w _ :: _ => true
+  | .fl :: r => if cf then false else implicitFirst cf r
+  | _ :: r => implicitFirst cf r
+
 /-! evaluation of one case -/
 
 structure Eval where
@@ -195,7 +218,12 @@ def evalCase (c : Case) : Eval :=
   let C := cfgOf c
   let ops := modelOps c
   let head := c.method == "HEAD"
-  let r := serve C head (reqHdr c.req) [] [] ops
+  let r := serve C head true (reqHdr c.req) [] [] ops
+  let hasFl := ops.any (· == Op.fl)
+  let has1xx := ops.any (fun | .wh k => informational k | _ => false)
+  -- did the handler get a Flusher? predicted by the model; observed by the harness (the bare run mirrors it)
+  let cfModel := flusherOffered head true (reqHdr c.req)
+  let cf := c.canFlush
   let mh := flatHdr r.obs.hdr
   let noBody := bodiless c r.obs.status
   let model := Json.mkObj [("compressed", r.compressed), ("status", r.obs.status), ("hdr", pairsJson mh),
@@ -217,20 +245,17 @@ def evalCase (c : Case) : Eval :=
   let statusOk := got.status == base.status
   let varyOk := valuesOf got.hdr hVary == valuesOf base.hdr hVary ||
                 valuesOf got.hdr hVary == hAcceptEncoding :: valuesOf base.hdr hVary
-  let dec := decision C [] ops   -- upstream header map at the first WriteHeader/Write (spec's own fold, no Vary)
+  let dec := decision C cf [] ops   -- upstream header map at the first deciding call (spec's own fold, no Vary)
   let upH : List (String × String) := match dec with
     | some (h, _) => flatHdr h
     | none => flatHdr (hops ops [])
   -- the upstream's own header map at that moment (before any sniffed Content-Type is filled in)
-  let upRaw : List (String × String) :=
-    flatHdr (hops (ops.takeWhile (fun | .wh _ => false | .w _ => false | _ => true)) [])
+  let upRaw : List (String × String) := flatHdr (rawAt cf ops [])
   let typeOk := match dec with
     | some (h, _) => C.typeOk (hget h hContentType)
     | none => false
   let upEncoded := valuesOf upH hContentEncoding != [] && valuesOf upH hContentEncoding != [""]
-  let implicit := match c.ops.find? (fun | .h _ => false | _ => true) with
-    | some (.w _) => true
-    | _ => false
+  let implicit := implicitFirst cf ops
   let engaged := acceptsGzip (reqHdr c.req) && !head
   let hdrAgree :=
     if c.layer == "rec" then got.hdr == mh
@@ -242,9 +267,10 @@ def evalCase (c : Case) : Eval :=
           ((valuesOf mh hContentType == [] || !(engaged || valuesOf upRaw hContentType != []) ||
               valuesOf mh hContentType == valuesOf got.hdr hContentType) &&
            (valuesOf mh hContentLength == [] || valuesOf mh hContentLength == valuesOf got.hdr hContentLength)))
-  let agree := got.status == r.obs.status && hdrAgree && bodyAgree
+  let agree := got.status == r.obs.status && hdrAgree && bodyAgree && got.err == "" && (!hasFl || cf == cfModel)
   let (spec, ftag) : Bool × String :=
-    if !statusOk then (false, "status-changed")
+    if got.err != "" then (false, "transport-error")
+    else if !statusOk then (false, "status-changed")
     else if !changed then
       let rest := [hVary, hContentType]
       if without got.hdr rest != without base.hdr rest then (false, "header-changed")
@@ -272,7 +298,8 @@ def evalCase (c : Case) : Eval :=
   let aeAll := String.intercalate "," ((c.req.filter (fun p => lowerL p.1.toList == "accept-encoding".toList)).map (·.2))
   let tag :=
     if ftag != "" then ftag
-    else if r.compressed then (if implicit then "gzip/implicit" else "gzip/explicit")
+    else (if has1xx then "1xx+" else "") ++ (if hasFl then "flush+" else "") ++
+    if r.compressed then (if implicit then "gzip/implicit" else "gzip/explicit")
     else if !(acceptsGzip (reqHdr c.req)) then (if containsL aeAll.toList encGzip.toList then "plain/refused" else "plain/no-accept")
     else if head then "plain/head"
     else match dec with
